@@ -339,10 +339,19 @@ func c20Child(args []string) int {
 				return false
 			}
 			if ob.Has {
+				n := 0
 				for d, b := range ob.Tracked {
 					if b != exists(d) {
 						return false
 					}
+					if b {
+						n++
+					}
+				}
+				// a directory removed and re-created is "tracked" and "exists" while its kernel watch is gone and the removal
+				// event is still on its way: settled only when every tracked directory really has its watch
+				if m, _ := c20Measure(); m.ino == 1 && m.watches != n {
+					return false
 				}
 			}
 			return true
@@ -684,9 +693,6 @@ func c20Gen(r *hx.R, kind, root string, maxConf int) *c20Hist {
 		// descriptors are short only while a cache is really created or reconfigured (the shortage discipline): an operation
 		// that leaves the cache alone (GetDefaultCache on an existing cache, empty option lists) would just keep the window open
 		reconfigures := !created || (st.Op != "dget" && st.Op != "new" && len(st.Opts) > 0)
-		if os.Getenv("VERIF_C20_OLDGEN") != "" {
-			reconfigures = true
-		}
 		if reconfigures && r.Chance(shortP) {
 			st.Shortage = true
 			h.short++
